@@ -86,7 +86,7 @@ def main():
     open(os.path.join(VERIF, "MANIFEST.json"), "w").write(json.dumps(man, indent=1) + "\n")
 
 
-HOOK_COMMITS = ["33cd3e7", "a76ee5e", "25e0b2b", "56580ad"]
+HOOK_COMMITS = ["33cd3e7", "a76ee5e", "5299877", "56580ad"]
 
 if __name__ == "__main__":
     main()
